@@ -41,6 +41,18 @@ def lastByte (bs : Bytes) : UInt8 := bs.getLastD 0
 /-- the padding a well-framed packet announces -/
 def paddingOf (bs : Bytes) : Option UInt8 := if pbit bs then some (lastByte bs) else none
 
+/-- a legal amount of RFC 3550 padding for the unpadded packet `p`: a multiple of 4 in 4..252 that
+    still fits the 16-bit length field (C13) -/
+def PadOk (p : Bytes) (n : Nat) : Prop :=
+  pbit p = false ∧ n % 4 = 0 ∧ 4 ≤ n ∧ n ≤ 252 ∧ p.length + n ≤ 262144
+
+instance (p : Bytes) (n : Nat) : Decidable (PadOk p n) := by unfold PadOk; infer_instance
+
+/-- a byte string that is one whole packet as far as the chain of length fields is concerned (C11, C14) -/
+def Tile (t : Bytes) : Prop := 4 ≤ t.length ∧ lengthField t = t.length
+
+instance (t : Bytes) : Decidable (Tile t) := by unfold Tile; infer_instance
+
 /-- Reference tiling: follow the chain of length fields; `some tiles` iff the chain partitions
     `bs` into whole packets with nothing left over.  (`fuel` bounds the recursion; `bs.length`
     suffices since every tile has at least 4 bytes.) -/
